@@ -106,6 +106,17 @@ where
                 true => (v_node_index, u_node_index),
             };
 
+        // how an already-present pair's traversal weight is updated: parallel edges keep the
+        // minimum, `KeepLast` takes the new edge's weight, `KeepFirst` keeps the stored one
+        let duplicate_weight = match (
+            self.specs.multi_edges,
+            &self.specs.edge_dedupe_strategy,
+        ) {
+            (true, _) => DuplicateWeight::Min,
+            (false, EdgeDedupeStrategy::KeepLast) => DuplicateWeight::Replace,
+            (false, _) => DuplicateWeight::Keep,
+        };
+
         // add to the successors HashMap
         self.successors
             .entry(edge.u.clone())
@@ -125,6 +136,7 @@ where
             ordered_edge_v,
             edge.weight,
             edge_already_exists,
+            &duplicate_weight,
         );
 
         // add to predecessors
@@ -144,6 +156,7 @@ where
                     ordered_edge_u,
                     edge.weight,
                     edge_already_exists,
+                    &duplicate_weight,
                 );
             }
             false => {
@@ -161,6 +174,7 @@ where
                     ordered_edge_u,
                     edge.weight,
                     edge_already_exists,
+                    &duplicate_weight,
                 );
             }
         }
@@ -460,21 +474,35 @@ where
 /**
 Adds a node to an adjacency (successor or predecessor) vector.
  */
+enum DuplicateWeight {
+    Keep,
+    Min,
+    Replace,
+}
+
 fn add_to_adjacency_vec(
     adjacency_vec: &mut Vec<Vec<AdjacentNode>>,
     u_node_index: usize,
     v_node_index: usize,
     weight: f64,
     edge_already_exists: bool,
+    duplicate_weight: &DuplicateWeight,
 ) {
     match edge_already_exists {
         true => {
-            let index = adjacency_vec[u_node_index]
-                .iter()
-                .position(|succ| succ.node_index == v_node_index)
-                .unwrap();
-            if weight < adjacency_vec[u_node_index][index].weight {
-                adjacency_vec[u_node_index][index] = AdjacentNode::new(v_node_index, weight);
+            for adj in adjacency_vec[u_node_index]
+                .iter_mut()
+                .filter(|succ| succ.node_index == v_node_index)
+            {
+                match duplicate_weight {
+                    DuplicateWeight::Keep => {}
+                    DuplicateWeight::Min => {
+                        if weight < adj.weight {
+                            adj.weight = weight;
+                        }
+                    }
+                    DuplicateWeight::Replace => adj.weight = weight,
+                }
             }
         }
         false => adjacency_vec[u_node_index].push(AdjacentNode::new(v_node_index, weight)),
